@@ -50,6 +50,8 @@ func drawC01(t *rapid.T) polCase {
 		if arch == hostArchName() {
 			c.Prev = "unset"
 		}
+	case 10:
+		c.Prev = "edited-conds"
 	}
 	return c
 }
@@ -113,6 +115,8 @@ func checkC01(raw json.RawMessage) (ev.Result, error) {
 		st.class("architecture-left-to-the-library")
 	case c.Prev == "copy":
 		st.class("architecture-given-by-a-copy-of-the-info-value")
+	case c.Prev == "edited-conds":
+		st.class("value-edited-in-place-after-compiling-other-entries")
 	case c.Prev != "" && c.Prev != p.Arch:
 		st.class("value-compiled-for-another-architecture-before")
 	}
@@ -201,6 +205,8 @@ func drawC03(t *rapid.T) polCase {
 		c.OpCase = rapid.Uint64Range(1, 1<<62).Draw(t, "opCase")
 	case 1:
 		c.Prev = "edited"
+	case 2:
+		c.Prev = "edited-conds"
 	}
 	return c
 }
@@ -233,6 +239,9 @@ func checkC03(raw json.RawMessage) (ev.Result, error) {
 	}
 	if c.Prev == "edited" {
 		st.class("value-held-another-policy-before")
+	}
+	if c.Prev == "edited-conds" {
+		st.class("value-edited-in-place-after-compiling-other-conditions")
 	}
 	// shape classes of the conditional part
 	perName := map[string]int{}
